@@ -25,6 +25,13 @@ def make_work(rng, tier):
 
 
 def run(ctx):
+    from . import c01plan, common
+    res = run_sql(ctx)
+    # planner transcription + composition theorem (model/Plan.v, props/C01plan.v)
+    return common.merge_results(res, c01plan.run(ctx), "planner_composition")
+
+
+def run_sql(ctx):
     return sqlprop.run_property(
         ctx, PID, "props/C01.v", make_work,
         "the judge applied to every engine answer is proved sound (bag equality / sorted-slice admission) over the executable reference semantics model/Sql.v",
